@@ -104,7 +104,7 @@ PROPS = {
     "C15": {
         "level": "exploration",
         "quick": [("A", 100000)],
-        "thorough": [("A", 3000000)],
+        "thorough": [("A", 3000000), ("B", 300000), ("E", 24)],
         "probes": ["get_many_dup", "get_many_absent", "get_many_all_present"],
         "rule": "one evaluation = one simulated run issuing get_many_mut / get_many_key_value_mut with N = 0..4 requests including duplicates and absent keys, under plans colliding in position and tag bits, and (one third of the runs) an equality that matches several entries; oracle: request order, right entry per request (serial), pairwise distinct addresses, panic iff two requests resolve to one entry, sentinel writes land in the requested entries; non-trivial/distinct as for C01",
     },
